@@ -54,13 +54,18 @@ func runAttackMonitor(c *Ctx, id string) int {
 	var specs []childSpec
 	for w := uint64(0); w <= 3; w++ {
 		for m := uint64(1); m <= 3; m++ {
-			for _, first := range []string{"T", "P", "S", "E"} {
-				specs = append(specs, childSpec{
-					Args:    []string{"scripted", fmt.Sprint(w), fmt.Sprint(m), first, fmt.Sprint(depth)},
-					Env:     []string{"GOMAXPROCS=1"},
-					Label:   fmt.Sprintf("scripted w=%d m=%d first=%s", w, m, first),
-					Timeout: 40 * time.Minute,
-				})
+			for _, order := range []string{"wm", "mw"} {
+				if order == "mw" && w <= m {
+					continue // the order of the two options can only matter when the initial count exceeds the maximum
+				}
+				for _, first := range []string{"T", "P", "S", "E"} {
+					specs = append(specs, childSpec{
+						Args:    []string{"scripted", fmt.Sprint(w), fmt.Sprint(m), first, fmt.Sprint(depth), order},
+						Env:     []string{"GOMAXPROCS=1"},
+						Label:   fmt.Sprintf("scripted w=%d m=%d %s first=%s", w, m, order, first),
+						Timeout: 40 * time.Minute,
+					})
+				}
 			}
 		}
 	}
@@ -117,12 +122,12 @@ func attackChild(c *Ctx, id string) int {
 	}
 	switch args[0] {
 	case "scripted":
-		cfg := scriptCfg{Workers: uint64(atoi(1)), Max: uint64(atoi(2))}
+		cfg := scriptCfg{Workers: uint64(atoi(1)), Max: uint64(atoi(2)), MaxFirst: len(args) > 5 && args[5] == "mw"}
 		exploreScripts(run, cfg, atoi(4), args[3], id)
 	case "long":
 		rng := rand.New(rand.NewSource(c.Seed*1000 + int64(atoi(1))))
 		for i := 0; i < atoi(2); i++ {
-			cfg := scriptCfg{Workers: uint64(rng.Intn(10)), Max: uint64(1 + rng.Intn(8))}
+			cfg := scriptCfg{Workers: uint64(rng.Intn(10)), Max: uint64(1 + rng.Intn(8)), MaxFirst: rng.Intn(2) == 0}
 			script := randomScript(rng, atoi(3))
 			logCase(fmt.Sprintf(`{"cfg":{"workers":%d,"max_workers":%d},"script":%q}`, cfg.Workers, cfg.Max, strings.Join(script, " ")))
 			x := runScript(run, cfg, script, []string{"ticks", "stop"}[i%2], id)
@@ -290,6 +295,7 @@ type stressCase struct {
 	ErrEvery  int    `json:"transport_error_every"`
 	ConsSpin  int    `json:"consumer_spin_max"`
 	DNSCache  bool   `json:"dns_caching_refresher"`
+	MaxFirst  bool   `json:"max_workers_option_first"`
 	Seed      int64  `json:"seed"`
 }
 
@@ -302,6 +308,7 @@ func randomStressCase(rng *rand.Rand) stressCase {
 		ErrEvery: []int{0, 0, 7, 2}[rng.Intn(4)],
 		ConsSpin: []int{0, 0, 100, 5000}[rng.Intn(4)],
 		DNSCache: rng.Intn(4) == 0,
+		MaxFirst: rng.Intn(2) == 0,
 		Seed:     rng.Int63(),
 	}
 	n := 2000 + rng.Intn(18000)
@@ -392,7 +399,8 @@ func runStress(run *ev.Run, sc stressCase, filter string) {
 		// starts its refresh goroutine, which must end with the attack
 		opts = append(opts, vegeta.DNSCaching(time.Hour))
 	}
-	opts = append(opts, vegeta.Client(&http.Client{Transport: rt}), vegeta.Workers(sc.Workers), vegeta.MaxWorkers(sc.Max))
+	opts = append(opts, vegeta.Client(&http.Client{Transport: rt}))
+	opts = append(opts, scriptCfg{Workers: sc.Workers, Max: sc.Max, MaxFirst: sc.MaxFirst}.options()...)
 	atk := vegeta.NewAttacker(opts...)
 	results := atk.Attack(tg.Targeter(), pacer, 0, "stress")
 
